@@ -963,7 +963,10 @@ def ctor_obs(value, present, is_async, shell):
             from pypyr.steps.dsl.cmdasync import AsyncCmdStep
             import pypyr.aio.subproc as aio
             step = AsyncCmdStep(name='pypyr.steps.' + ('shells' if shell else 'cmds'), context=ctx, is_shell=shell)
-            cmds, dflt_enc = list(step.commands), aio.DEFAULT_ENCODING
+            import locale
+            from pypyr.config import config as _cfg
+            # the default an aio Command falls back to (computed here, not read from a module attribute of the tree)
+            cmds, dflt_enc = list(step.commands), (_cfg.default_cmd_encoding or locale.getpreferredencoding(False))
         else:
             from pypyr.steps.dsl.cmd import CmdStep
             step = CmdStep(name='pypyr.steps.' + ('shell' if shell else 'cmd'), context=ctx, is_shell=shell)
@@ -997,6 +1000,165 @@ def ctor_run_obs(value, present, step_name):
 
 
 # --------------------------------------------------------------------------
+# histories in ONE FRESH interpreter: import modules / set configuration / run steps, in any order
+# --------------------------------------------------------------------------
+
+HIST_EMIT = r"""
+import os, sys
+d, ident, code, o, e = sys.argv[1:6]
+open(os.path.join(d, 'started.' + ident), 'w').close()
+if o != '-':
+    sys.stdout.buffer.write(bytes.fromhex(o)); sys.stdout.buffer.flush()
+if e != '-':
+    sys.stderr.buffer.write(bytes.fromhex(e)); sys.stderr.buffer.flush()
+os._exit(int(code))
+"""
+
+HIST_CHILD = r"""
+import importlib, io, json, os, sys
+spec = json.load(open(sys.argv[1]))
+sys.path.insert(0, spec['repo'])
+d = spec['dir']
+dn = os.open(os.devnull, os.O_WRONLY); os.dup2(dn, 1); os.dup2(dn, 2)
+import logging
+logging.disable(logging.CRITICAL)
+obs = {'default': io.TextIOWrapper(io.BytesIO()).encoding, 'setup': [], 'runs': []}
+file_enc = spec.get('env_file')
+SENT = '<<cmdOut untouched>>'
+
+def conf():
+    from pypyr.config import config
+    return config
+
+def write_cfg(name, text):
+    with open(name, 'w', encoding=file_enc or 'utf-8') as f:
+        f.write(text)
+
+def txt(v):
+    if isinstance(v, (bytes, bytearray)):
+        return {'bytes': bytes(v).hex()}
+    return v if (v is None or isinstance(v, str)) else {'repr': repr(v)}
+
+try:
+    for k, op in enumerate(spec['ops']):
+        if op['op'] == 'imp':
+            importlib.import_module(op['mod'])
+        elif op['op'] in ('setCmd', 'setFile'):
+            key = 'default_cmd_encoding' if op['op'] == 'setCmd' else 'default_encoding'
+            v, how = op['v'], op['how']
+            config = conf()
+            if how == 'assign':
+                setattr(config, key, v)
+            else:
+                for f in ('pypyr-config.yaml', 'pyproject.toml'):
+                    if os.path.exists(f):
+                        os.unlink(f)
+                os.environ.pop('PYPYR_CONFIG_GLOBAL', None)
+                if how == 'init-yaml':
+                    write_cfg('pypyr-config.yaml', '%s: %s\n' % (key, v if v is not None else 'null'))
+                elif how == 'init-toml':
+                    with open('pyproject.toml', 'wb') as f:
+                        f.write(('[tool.pypyr]\n%s = "%s"\n' % (key, v)).encode())
+                else:
+                    write_cfg('global-%d.yaml' % k, '%s: %s\n' % (key, v if v is not None else 'null'))
+                    os.environ['PYPYR_CONFIG_GLOBAL'] = os.path.join(os.getcwd(), 'global-%d.yaml' % k)
+                config.init()
+            if op['op'] == 'setFile':
+                file_enc = v
+            obs['setup'].append([config.default_cmd_encoding, config.default_encoding])
+        else:
+            step = importlib.import_module('pypyr.steps.' + op['step'])
+            from pypyr.context import Context
+            lines = []
+            for i, c in enumerate(op['cmds']):
+                line = '%s -S %s %s %d_%d %d %s %s' % (sys.executable, spec['emit'], d, k, i, c['code'],
+                                                       c['hexout'] or '-', c['hexerr'] or '-')
+                lines.append('exec ' + line if op['step'] in ('shell', 'shells') else line)
+            def settings(c):
+                m = {'save': op['save']}
+                if c['own'] is not None:
+                    m['encoding'] = c['own']
+                return m
+            if op['form'] == 'single':
+                cfg = {'run': lines[0], **settings(op['cmds'][0])}
+            elif op['form'] == 'runlist':
+                cfg = {'run': lines, **settings(op['cmds'][0])}
+            else:
+                cfg = [{'run': l, **settings(c)} for l, c in zip(lines, op['cmds'])]
+            ctx = Context({('cmds' if op['step'] in ('cmds', 'shells') else 'cmd'): cfg, 'cmdOut': SENT})
+            at = conf().default_cmd_encoding
+            err = None
+            try:
+                step.run_step(ctx)
+            except BaseException as e:
+                which = None
+                ecmd = getattr(e, 'cmd', None)
+                for i, l in enumerate(lines):
+                    if ecmd is not None and (ecmd == l or (isinstance(ecmd, list) and ' '.join(ecmd) == l)):
+                        which = i
+                err = {'type': type(e).__name__, 'code': getattr(e, 'returncode', None), 'cmd': which,
+                       'msg': str(e)[:160]}
+            co = ctx.get('cmdOut', None)
+            if isinstance(co, str) and co == SENT:
+                results = 'untouched'
+            else:
+                rs = co if isinstance(co, list) else [co]
+                results = [({'exc': type(r).__name__, 'msg': str(r)[:160]} if isinstance(r, BaseException) else
+                            [getattr(r, 'returncode', None), txt(getattr(r, 'stdout', None)),
+                             txt(getattr(r, 'stderr', None))]) for r in rs]
+            started = sorted(int(n.split('_')[1]) for n in os.listdir(d) if n.startswith('started.%d_' % k))
+            obs['runs'].append({'config_at_run': at, 'started': started, 'err': err, 'results': results})
+except BaseException as e:
+    import traceback
+    obs['crash'] = '%s: %s | %s' % (type(e).__name__, e, traceback.format_exc()[-800:])
+with open(os.path.join(d, 'obs.json'), 'w') as f:
+    json.dump(obs, f)
+"""
+
+
+def run_hist(case):
+    """One history in a FRESH interpreter (fork alone would inherit whatever the pool process imported already)."""
+    import subprocess
+    from . import common
+    d = tempfile.mkdtemp(prefix='c17_hist_')
+    try:
+        emit, child, specf = (os.path.join(d, n) for n in ('emit.py', 'hist_child.py', 'spec.json'))
+        with open(emit, 'w') as f:
+            f.write(HIST_EMIT)
+        with open(child, 'w') as f:
+            f.write(HIST_CHILD)
+        ops = []
+        for op in case['ops']:
+            if op['op'] == 'run':
+                op = {**op, 'cmds': [{**c, 'hexout': c['out'].encode(c['penc']).hex(),
+                                      'hexerr': c['err'].encode(c['penc']).hex()} for c in op['cmds']]}
+            ops.append(op)
+        with open(specf, 'w') as f:
+            json.dump({'repo': str(common.REPO), 'dir': d, 'emit': emit, 'ops': ops,
+                       'env_file': case.get('env_file')}, f)
+        env = {k: v for k, v in os.environ.items() if not k.startswith('PYPYR_') and k not in ('PYTHONPATH',)}
+        env['XDG_CONFIG_HOME'] = os.path.join(d, 'xdg')
+        env['XDG_CONFIG_DIRS'] = os.path.join(d, 'xdgdirs')
+        env['HOME'] = d
+        if case.get('env_cmd'):
+            env['PYPYR_CMD_ENCODING'] = case['env_cmd']
+        if case.get('env_file'):
+            env['PYPYR_ENCODING'] = case['env_file']
+        work = os.path.join(d, 'cwd')
+        os.mkdir(work)
+        p = subprocess.run([sys.executable, child, specf], cwd=work, env=env, stdin=subprocess.DEVNULL,
+                           stdout=subprocess.DEVNULL, stderr=subprocess.PIPE)
+        try:
+            with open(os.path.join(d, 'obs.json')) as f:
+                return json.load(f)
+        except (OSError, ValueError):
+            return {'crash': f'history process left no observation (exit {p.returncode}): '
+                             f'{p.stderr.decode("utf-8", "replace")[-600:]}'}
+    finally:
+        shutil.rmtree(d, ignore_errors=True)
+
+
+# --------------------------------------------------------------------------
 # worker entry (multiprocessing)
 # --------------------------------------------------------------------------
 
@@ -1011,6 +1173,8 @@ def run_case(case, plan):
     try:
         if case['kind'] == 'serial':
             return run_serial(case)
+        if case['kind'] == 'hist':
+            return run_hist(case)
         return run_async(case, plan)
     except Exception as e:
         import traceback
